@@ -1858,7 +1858,7 @@ class ListProxy(list):
                 self._parameter.names.clear()
                 self._parameter.names.update(copy)
 
-    def update(self, objects, **items):
+    def update(self, objects=(), **items):
         if not self._parameter.names:
             self._parameter.names = _named_objs(self)
         objects = objects.items() if isinstance(objects, dict) else objects
